@@ -149,12 +149,16 @@ def derive_module_name_from_path(filepath: Path | str | None) -> str | None:
     # Given a file '/path/to/repo/my_module/file/__init.py', the longest possible module
     # name would be 'path.to.repo.my_module.file' though in reality it may just be
     # 'my_module.file'
-    longest_possible_modulename = (
-        filepath_str.replace("/", ".")
-        .replace("\\", ".")
-        .removesuffix(".__init__.py")
-        .removesuffix(".py")
-        .strip(".")  # strip remaining "." in relative files
+    dotted_filepath = filepath_str.replace("/", ".").replace("\\", ".")
+
+    # NOTE Only one of the suffixes is removed, a package may be named "py"
+    if dotted_filepath.endswith(".__init__.py"):
+        dotted_filepath = dotted_filepath.removesuffix(".__init__.py")
+    else:
+        dotted_filepath = dotted_filepath.removesuffix(".py")
+
+    longest_possible_modulename = dotted_filepath.strip(
+        "."  # strip remaining "." in relative files
     )
 
     for module in iter_module_names_left(longest_possible_modulename.split(".")):
